@@ -5,7 +5,9 @@
     * the seized collateral is scaled with the collateral token's own liquidity index,
     * the loop ends (`break`) once no unvisited debt is left,
     * the first unvisited debt is always a candidate (the `Decimal(10e21)` start value no longer hides
-      debts worth more than 10^22).
+      debts worth more than 10^22),
+    * a capped seizure never scales the repayment *up* (`min`), and `variable_delt < actual_debt_to_liquidate`
+      is checked before the collateral is touched.
 -/
 import Demeter.AaveRisk.Basic
 import Demeter.Wallet
@@ -77,12 +79,14 @@ def doLiquidate (cx : NumCtx) (p : Portfolio) (c : Supply) (d : Debt) (cover : R
   let capped : Bool := decide (maxColl > bal)
   if capped ∧ cx.mul d.row.price onePlus = 0 then .raised .arith p else
   let collUsed := if capped then bal else maxColl
-  let repaid := if capped then cx.div (cx.mul c.row.price bal) (cx.mul d.row.price onePlus) else toLiq
+  -- `min(actual_debt_to_liquidate, scaled)`: the repayment is scaled down, never up
+  let scaled := cx.div (cx.mul c.row.price bal) (cx.mul d.row.price onePlus)
+  let repaid := if capped then (if scaled < toLiq then scaled else toLiq) else toLiq
+  if varDebt < repaid then .raised .demeter p else           -- checked before anything is changed
   if c.row.liqIndex = 0 then .raised .arith p else
   let newCollBase := subBase cx c.base (cx.div collUsed c.row.liqIndex)
   let supplies' := putSupplyBase p.supplies c.tok newCollBase
   let p1 : Portfolio := { p with supplies := supplies' }
-  if varDebt < repaid then .raised .demeter p1 else
   if d.row.borIndex = 0 then .raised .arith p1 else
   let newDebtBase := subBase cx d.base (cx.div repaid d.row.borIndex)
   let p2 : Portfolio := { supplies := supplies', debts := putDebtBase p.debts d.tok newDebtBase }
